@@ -32,6 +32,7 @@ OrderOK(e) ==
 (* (FORCE: on inputs where no exact tie meets an inexact f64 quotient - elsewhere the model abstains)                             *)
 OA == INSTANCE OrderAlgo
 OrderDrift(e) ==
+  IF e.nv > 5 \/ Len(e.cnf) > 4 THEN FALSE ELSE        \* the model is evaluated on small inputs only (TLC: seconds per large input)
   CASE e.kind = "minfill" -> e.p2v # OA!MinFill(e.cnf, e.nv)
     [] e.kind = "force" -> OA!Applicable(e.cnf) /\ ~OA!Fragile(e.cnf, e.nv) /\ e.p2v # OA!Force(e.cnf, e.nv)
     [] OTHER -> FALSE
